@@ -111,6 +111,9 @@ def run (ct : Bool) (s : State) (as : List Act) : State := as.foldl (step ct) s
 def Quiescent (s : State) : Prop :=
   s.host.events = 0 ∧ s.hdefer = [] ∧ ∀ c ∈ s.clients, c.p.events = 0 ∧ c.defer = [] ∧ c.up = [] ∧ c.down = []
 
+instance decQuiescent (s : State) : Decidable (Quiescent s) := by
+  unfold Quiescent; infer_instance
+
 /-- between two writer epochs: every peer holds `x`, nothing pending anywhere -/
 def Settled (x : Option Nat) (s : State) : Prop :=
   s.host.content = x ∧ s.host.events = 0 ∧ s.host.tokens = 0 ∧ s.hdefer = [] ∧
